@@ -11,6 +11,7 @@ import (
 	sdk "github.com/cosmos/cosmos-sdk/types"
 	slashingtypes "github.com/cosmos/cosmos-sdk/x/slashing/types"
 	stakingtypes "github.com/cosmos/cosmos-sdk/x/staking/types"
+	abci "github.com/tendermint/tendermint/abci/types"
 
 	mhubtypes "github.com/MinterTeam/mhub2/module/x/mhub2/types"
 	"verifmc/apph"
@@ -35,6 +36,7 @@ var c05AppOps = []string{
 	"Keys",            // validators 0 and 1 register their ethereum and minter keys
 	"Send",            // the user sends 1000 hub to ethereum and asks for a batch
 	"Deposit",         // every validator claims the next deposit event of ethereum (from its own account)
+	"DoubleSign2",     // the block carries evidence that validator 2 signed two blocks at the previous height (x/evidence: slashed, jailed, tombstoned)
 }
 
 type c05AppRun struct {
@@ -103,6 +105,9 @@ func c05AppExec(path []int, horizon int) c05AppRun {
 			signed = []bool{true, true, false}
 		}
 		msgs := c05AppMsgs(c, op, &dep)
+		if op == "DoubleSign2" && c.Height > 0 {
+			c.NextEvidence = []abci.Evidence{{Type: abci.EvidenceType_DUPLICATE_VOTE, Validator: abci.Validator{Address: c.Vals[2].Cons, Power: 100}, Height: c.Height, Time: c.Time, TotalVotingPower: 300}}
+		}
 		if f := c.Block(signed, msgs); f != nil {
 			r.Fail, r.FailAt = f, i
 			return r
